@@ -5,6 +5,7 @@ from analysis import terms as T
 from analysis import chessref as R
 from analysis.effects import subterms, upd_entries
 
+THOROUGH_CONFIGS = ['release', 'nobmi2', 'movegen-alone']
 LEVEL = "other"
 DECIDED = ("Each bitboard operation's MIR is reduced (K4: inlining, constant folding, commutative normalisation) to a term over the 64-bit word and compared with the canonical bit "
            "formula of the set operation, with square numbering and edge masks derived from the Pos/File/Rank enums: R1 from_pos/from_file/from_rank; R2 or/and/xor/not/diff, "
